@@ -129,7 +129,9 @@ def build_driver():
 
 def usable(rec):
     c = rec.get("obs", {}).get("conflict")
-    return bool(c) and c.get("graph") is not None and c.get("msg") is not None
+    # the extracted renderer model is not tail recursive: graphs beyond a few thousand nodes (the `domino` cascades)
+    # are judged by the size bound and the panic / hang search only
+    return bool(c) and c.get("graph") is not None and c.get("msg") is not None and len(c["graph"]["nodes"]) <= 3000
 
 
 def unescape(s):
